@@ -4,6 +4,8 @@ package fschannel
 
 import (
 	"bytes"
+	"encoding/json"
+	"io"
 	"os"
 	"path/filepath"
 	"sort"
@@ -372,4 +374,79 @@ func zzH_C07_removed() {
 		zzAssert(err == nil && rf.pos == fi.Size(), "the recorded position equals the size of the new file")
 	}
 	zzAssert(bytes.Equal(got, p), "the line written after the removal is intact in the file under the configured path")
+}
+
+// ---- C07/write-loop: the channel's batching loop in front of the rotating file ----
+
+// model of (*json.Encoder).Encode for the maps the channel encodes: one line whose length
+// and fill byte the event names (the real encoder is reflection-based); written to the
+// encoder's own writer
+func zzStubEncode(enc *json.Encoder, v interface{}) error {
+	m := v.(map[string]interface{})
+	n, _ := m["n"].(int)
+	c, _ := m["c"].(byte)
+	w := zzGetHidden(enc, 0).(io.Writer)
+	line := bytes.Repeat([]byte{c}, n)
+	line = append(line, '\n')
+	_, err := w.Write(line)
+	return err
+}
+
+type zzLenEvent struct {
+	n int
+	c byte
+}
+
+// C07/write-loop: E events of LEN..LEN+3 bytes each - together more than the 500 KiB batch
+// threshold - are sent without pause through the real Send / writeLoop into a rotating file
+// whose limit lies just above the threshold. Every event's line appears exactly once and
+// complete in the active file or a rotated one.
+func zzH_C07_writeloop() {
+	maxSize := int64(520000)
+	path := "/var/log/honeytrap.log"
+	var tmp string
+	if zzSymbolic() {
+		zzfs = &zzFS{names: map[string]*zzInode{}, open: map[*os.File]*zzInode{}}
+	} else {
+		tmp, _ = os.MkdirTemp("", "zzc07w")
+		defer os.RemoveAll(tmp)
+		path = filepath.Join(tmp, "honeytrap.log")
+	}
+	fb := &FileBackend{FileConfig: FileConfig{MaxSize: maxSize, File: path, Mode: 0o600}, request: make(chan map[string]interface{})}
+	done := false
+	go func() { fb.writeLoop(); done = true }()
+	ln := zzParam("LEN", 20000) + zzLen(0, 3)
+	e := zzParam("E", 28)
+	var lines [][]byte
+	for i := 0; i < e; i++ {
+		c := byte('a' + i%26)
+		if zzSymbolic() {
+			fb.request <- map[string]interface{}{"n": ln, "c": c}
+			lines = append(lines, bytes.Repeat([]byte{c}, ln))
+		} else {
+			// native twin: the real JSON encoder; a payload string of the same size
+			fb.request <- map[string]interface{}{"p": string(bytes.Repeat([]byte{c}, ln-8))}
+			lines = append(lines, []byte(`{"p":"`+string(bytes.Repeat([]byte{c}, ln-8))+`"}`))
+		}
+	}
+	zzTimers(2) // then an idle second: the loop flushes what is left
+	zzQuiesce()
+	if !zzSymbolic() {
+		time.Sleep(1500 * time.Millisecond)
+	}
+	close(fb.request)
+	zzQuiesce()
+	zzAssert(done, "the write loop ends when the channel is closed")
+	var files []zzFileView
+	if zzSymbolic() {
+		for _, ino := range zzfs.rotated {
+			files = append(files, zzFileView{ino.prev, ino.data})
+		}
+		if act := zzfs.names[path]; act != nil {
+			files = append(files, zzFileView{act.prev, act.data})
+		}
+	} else {
+		files = zzNativeFiles(tmp, path, 0)
+	}
+	zzCheckFiles(files, lines, maxSize)
 }
